@@ -131,6 +131,16 @@ def hermite(t0, t1, p0, p1, m0, m1, t):
     return h00 * p0 + h10 * L * m0 + h01 * p1 + h11 * L * m1
 
 
+def hermite_deriv(t0, t1, p0, p1, m0, m1, t):
+    """d/dt of the cubic Hermite piece (analytic, longdouble) - finite differences of the piece are too noisy to read the
+    sign of a change of 1e-7 in a derivative-dependent event function"""
+    t0, t1, t = LD(t0), LD(t1), LD(t)
+    p0, p1, m0, m1 = [np.asarray(x, dtype=LD) for x in (p0, p1, m0, m1)]
+    L = t1 - t0
+    u = (t - t0) / L
+    return (6 * u - 6 * u ** 2) * ((p1 - p0) / L) + (3 * u ** 2 - 4 * u + 1) * m0 + (3 * u ** 2 - 2 * u) * m1
+
+
 def slope_fit(hs, errs, floor, ceil, window=7, min_ratio=1.9):
     """Observed order of convergence from a ladder (h_j, err_j).
 
